@@ -1360,7 +1360,11 @@ func (self *BinaryServerProtocol) ProcessParseLockData() (*protocol.LockCommandD
 	if err != nil {
 		return nil, err
 	}
-	return protocol.NewLockCommandDataFromOriginBytes(buf), nil
+	lockCommandData := protocol.NewLockCommandDataFromOriginBytes(buf)
+	if lockCommandData == nil {
+		return nil, errors.New("read data frame size error")
+	}
+	return lockCommandData, nil
 }
 
 func (self *BinaryServerProtocol) ProcessBuild(command protocol.ICommand) error {
